@@ -21,6 +21,9 @@ static long vh_cases = 1, vh_start = 0, vh_only = -1, vh_k = 0;
 static int vh_progress_fd = -1;
 static long vh_cases_run = 0, vh_nviol = 0, vh_nevals = 0;
 static uint64_t vh_prop_hash;
+#include <signal.h>
+static volatile sig_atomic_t guard_fires;
+void vh_guard_end(void);
 
 /* weak sanitizer interface */
 extern size_t __sanitizer_get_allocated_size(const volatile void *p) __attribute__((weak));
@@ -199,6 +202,46 @@ __attribute__((noinline)) void vh_stack_scribble(int byte)
     __asm__ volatile("" : : "r"(buf) : "memory");
 }
 
+/* ---------------- CPU-time guard ---------------- */
+static void emit_v(const char *key, const char *detail);
+#include <sys/time.h>
+sigjmp_buf vh_guard_env;
+static volatile sig_atomic_t guard_armed;
+int vh_case_cpu_budget = 120;
+static volatile sig_atomic_t case_guard_armed;
+static void guard_handler(int sig)
+{
+    (void) sig;
+    if (guard_armed) { guard_armed = 0; guard_fires++; siglongjmp(vh_guard_env, 1); }
+    if (case_guard_armed) {
+        case_guard_armed = 0; guard_fires++;
+        emit_v("case:cpu-budget", "the case used more than its CPU-time budget: an operation that does not terminate (or is slower than expected by orders of magnitude)");
+        longjmp(vh_case_env, 1);
+    }
+}
+void vh_guard_arm(int seconds)
+{
+    static int installed;
+    if (!installed) { struct sigaction sa; memset(&sa, 0, sizeof sa); sa.sa_handler = guard_handler; sigemptyset(&sa.sa_mask); sa.sa_flags = SA_NODEFER; sigaction(SIGVTALRM, &sa, NULL); installed = 1; }
+    struct itimerval it; memset(&it, 0, sizeof it); it.it_value.tv_sec = seconds;
+    guard_armed = 1;
+    setitimer(ITIMER_VIRTUAL, &it, NULL);
+}
+static void install_guard_handler(void)
+{
+    static int installed;
+    if (!installed) { struct sigaction sa; memset(&sa, 0, sizeof sa); sa.sa_handler = guard_handler; sigemptyset(&sa.sa_mask); sa.sa_flags = SA_NODEFER; sigaction(SIGVTALRM, &sa, NULL); installed = 1; }
+}
+void vh_guard_end(void)
+{
+    /* leave the block guard; the per-case budget (restarted) takes over */
+    struct itimerval it; memset(&it, 0, sizeof it);
+    guard_armed = 0;
+    if (vh_case_cpu_budget > 0 && vh_case_idx >= 0) { install_guard_handler(); it.it_value.tv_sec = vh_case_cpu_budget; case_guard_armed = 1; }
+    else case_guard_armed = 0;
+    setitimer(ITIMER_VIRTUAL, &it, NULL);
+}
+
 /* ---------------- driver ---------------- */
 void vh_init(int argc, char **argv, const char *prop)
 {
@@ -228,6 +271,8 @@ void vh_init(int argc, char **argv, const char *prop)
 int vh_next_case(void)
 {
     long idx;
+    /* a shard whose CPU-time guard fired three times stops early: the violation is on record, and every further firing costs seconds */
+    if (guard_fires >= 3) { vh_count("shard_stopped_after_guard_firings", 1); return 0; }
     for (;;) {
         if (vh_only >= 0) {
             if (vh_k > 0) return 0;
@@ -240,6 +285,7 @@ int vh_next_case(void)
         break;
     }
     vh_case_idx = idx;
+    vh_guard_end();          /* (re)start the per-case CPU budget; a case abandoned inside a guarded block must not leave its timer armed */
     vh_rng.s = vh_mix(vh_mix(vh_seed, vh_prop_hash), (uint64_t) idx);
     jcount = 0;
     if (vh_progress_fd >= 0) { int64_t v = idx; if (pwrite(vh_progress_fd, &v, sizeof v, 0) < 0) { } }
@@ -250,6 +296,7 @@ void vh_case_done(void) { vh_cases_run++; }
 
 int vh_finish(void)
 {
+    vh_case_idx = -1; vh_guard_end();
     char p[600];
     snprintf(p, sizeof p, "%s/cov.%d", vh_outdir, vh_shard);
     /* append: a shard restarted after a crash keeps earlier coverage */
